@@ -199,7 +199,7 @@ fn window_json_strategy() -> impl Strategy<Value = WinJson> {
 	})
 }
 
-fn run_window_json(c: &WinJson, st: &mut Stats) -> CaseResult {
+pub fn run_window_json(c: &WinJson, st: &mut Stats) -> CaseResult {
 	let parsed = engine::catch(|| serde_json::from_str::<Window<u32>>(&c.text)).map_err(|p| Failure::new(format!("C13:window-json-{}", p.sig()), format!("deserializing {} panicked at {}: {}", &c.text[..c.text.len().min(120)], p.loc, p.msg)))?;
 	// the generic view of the same text (keeps the last duplicate; only used when there are none)
 	let v: Option<Value> = serde_json::from_str(&c.text).ok();
@@ -247,7 +247,7 @@ pub struct SmmJson {
 	pub cont: Vec<f64>,
 }
 
-fn run_smm_json(c: &SmmJson, st: &mut Stats) -> CaseResult {
+pub fn run_smm_json(c: &SmmJson, st: &mut Stats) -> CaseResult {
 	let buf: Vec<f64> = c.buf.iter().map(|x| gen::vt(*x)).collect();
 	let text = format!("{{\"window\":{{\"buf\":{},\"index\":{}}}}}", serde_json::to_string(&buf).unwrap(), c.index);
 	let parsed = engine::catch(|| serde_json::from_str::<SMM>(&text)).map_err(|p| Failure::new(format!("C13:smm-json-{}", p.sig()), format!("deserializing {text} panicked: {}", p.msg)))?;
@@ -291,6 +291,7 @@ pub fn def(tier: Tier) -> PropertyDef {
 	}
 	let smm = (proptest::collection::vec(prop_oneof![Just(-0.0f64), Just(0.0), -3.0f64..3.0, Just(1.0), Just(2.0)], 0..12), 0u32..14, proptest::collection::vec(prop_oneof![Just(0.0f64), -3.0f64..3.0, Just(1.0)], 0..20)).prop_map(|(buf, index, cont)| SmmJson { buf, index, cont });
 	checks.push(pt("smm_json", tier.pick(15000, 150000), smm, run_smm_json));
+	checks.extend(crate::fuzz_entry::corpus_checks("C13"));
 	PropertyDef {
 		id: "C13",
 		level: "exploration",
